@@ -428,12 +428,20 @@ impl Model {
                     None => Exp::Drop,
                     Some(rc) => match refcodec::decode(bytes) {
                         Verdict::Accept(view) => {
-                            let s = refcodec::integrity_status(bytes, &view, &rc.reference());
+                            // only the *exposed* integrity attributes take part (one hidden behind
+                            // the first is not authenticated data); the last exposed one covers
+                            // everything before it, the other MAC included
+                            let s: Vec<(usize, u16, bool)> = refcodec::integrity_status(bytes, &view, &rc.reference()).into_iter().filter(|x| view.exposed.contains(&x.0)).collect();
                             let ok = s.iter().filter(|x| x.2).count();
                             if s.is_empty() || ok == 0 {
                                 Exp::Drop
                             } else if ok == s.len() {
                                 Exp::Deliver
+                            } else if !s.last().unwrap().2 {
+                                // wrong last MAC over a correct earlier one: byte for byte what
+                                // tampering with a correctly sealed response produces
+                                st.inc("probe.mixed_integrity_pair_last_wrong");
+                                Exp::Drop
                             } else {
                                 st.inc("probe.mixed_integrity_pair");
                                 Exp::Either
